@@ -200,12 +200,14 @@ impl Slots {
         // generation/released slot. That way we may re-confirm in the writer that the reader is
         // not in between here and the compare_exchange below with a stale gen (eg. if we are in
         // here, the re-confirm there will load the NO_DEPT and we are fine).
+        verif_step!(HELPING_ADDR_STORE);
         self.active_addr.store(ptr, SeqCst);
 
         // We are the only ones allowed to do the IDLE -> * transition and we never leave it in
         // anything else after an transaction, so this is OK. But we still need a load-store SeqCst
         // operation here to form a relation between this and the store of the actual pointer in
         // the writer thread :-(.
+        verif_step!(HELPING_CTRL_GEN);
         let prev = self.control.swap(gen, SeqCst);
         debug_assert_eq!(IDLE, prev, "Left control in wrong state");
 
@@ -219,6 +221,7 @@ impl Slots {
     {
         debug_assert_eq!(IDLE, self.control.load(Relaxed));
         // Also acquires the auxiliary data in other variables.
+        verif_step!(HELP_CTRL_LOAD);
         let mut control = who.control.load(SeqCst);
         loop {
             match control & TAG_MASK {
@@ -236,13 +239,16 @@ impl Slots {
                     // we also sync the control into our thread once more and reconfirm that the
                     // value of the active_addr is in between two same instances, therefore up to
                     // date to it.
+                    verif_step!(HELP_ADDR_LOAD);
                     let active_addr = who.active_addr.load(SeqCst);
                     if active_addr != storage_addr {
                         // Acquire for the same reason as on the top.
+                        verif_step!(HELP_CTRL_RELOAD);
                         let new_control = who.control.load(SeqCst);
                         if new_control == control {
                             // The other thread is doing something, but to some other ArcSwap, so
                             // we don't care. Cool, done.
+                            verif_step!(HELP_OTHER_STORAGE);
                             break;
                         } else {
                             // The control just changed under our hands, we don't know what to
@@ -255,16 +261,19 @@ impl Slots {
                     // Now we know this work is for us. Try to create a replacement and offer it.
                     // This actually does a full-featured load under the hood, but we are currently
                     // idle and the load doesn't re-enter write, so that's all fine.
+                    verif_step!(HELP_REPLACEMENT);
                     let replacement = replacement();
                     let replace_addr = T::as_ptr(&replacement) as usize;
                     // If we succeed in helping the other thread, we take their empty space in
                     // return for us that we pass to them. It's already there, the value is synced
                     // to us by Acquire on control.
+                    verif_step!(HELP_SPACE_LOAD);
                     let their_space = who.space_offer.load(SeqCst);
                     // Relaxed is fine, our own thread and nobody but us writes in here.
                     let my_space = self.space_offer.load(SeqCst);
                     // Relaxed is fine, we'll sync by the next compare-exchange. If we don't, the
                     // value won't ever be read anyway.
+                    verif_step!(HELP_HANDOVER_STORE);
                     unsafe {
                         (*my_space).0.store(replace_addr, SeqCst);
                     }
@@ -275,6 +284,7 @@ impl Slots {
                     // Release on success -> we send data to that thread through here. Must be
                     // AcqRel, because success must be superset of failure. Also, load to get their
                     // space (it won't have changed, it does when the control is set to IDLE).
+                    verif_step!(HELP_CTRL_CAS);
                     match who
                         .control
                         .compare_exchange(control, space_addr, SeqCst, SeqCst)
@@ -282,6 +292,7 @@ impl Slots {
                         Ok(_) => {
                             // We have successfully sent our replacement out (Release) and got
                             // their space in return (Acquire on that load above).
+                            verif_step!(HELP_CAS_OK);
                             self.space_offer.store(their_space, SeqCst);
                             // The ref count went with it, so forget about it here.
                             T::into_ptr(replacement);
@@ -292,6 +303,7 @@ impl Slots {
                             // Something has changed in between. Let's try again, nothing changed
                             // (the replacement will get dropped at the end of scope, we didn't do
                             // anything with the spaces, etc.
+                            verif_step!(HELP_CAS_LOST);
                             control = new_control;
                         }
                     }
@@ -309,11 +321,13 @@ impl Slots {
         // Put the slot there and consider it acquire of a „lock“. For that we need swap, not store
         // only (we need Acquire and Acquire works only on loads). Release is to make sure control
         // is observable by the other thread (but that's probably not necessary anyway?)
+        verif_step!(CONFIRM_SLOT);
         let prev = self.slot.0.swap(ptr, SeqCst);
         debug_assert_eq!(Debt::NONE, prev);
 
         // Confirm by writing to the control (or discover that we got helped). We stop anyone else
         // from helping by setting it to IDLE.
+        verif_step!(CONFIRM_CTRL);
         let control = self.control.swap(IDLE, SeqCst);
         if control == gen {
             // Nobody interfered, we have our debt in place and can proceed.
@@ -322,6 +336,7 @@ impl Slots {
             // Someone put a replacement in there.
             debug_assert_eq!(control & TAG_MASK, REPLACEMENT_TAG);
             let handover = (control & !TAG_MASK) as *mut Handover;
+            verif_step!(CONFIRM_HANDOVER);
             let replacement = unsafe { &*handover }.0.load(SeqCst);
             // Make sure we advertise the right envelope when we set it to generation next time.
             self.space_offer.store(handover, SeqCst);
@@ -330,5 +345,27 @@ impl Slots {
             // someone provided the replacement *and* paid the debt and we need just one of them).
             Err(replacement)
         }
+    }
+}
+
+#[cfg(feature = "verif-hooks")]
+impl Slots {
+    pub(super) fn verif_control(&self) -> usize {
+        self.control.load(Relaxed)
+    }
+
+    pub(super) fn verif_active_addr(&self) -> usize {
+        self.active_addr.load(Relaxed)
+    }
+}
+
+#[cfg(feature = "verif-hooks")]
+impl Local {
+    pub(super) fn verif_generation(&self) -> usize {
+        self.generation.get()
+    }
+
+    pub(super) fn verif_set_generation(&self, gen: usize) {
+        self.generation.set(gen)
     }
 }
